@@ -30,7 +30,6 @@ inductive Lax where
   | destinationTypePropagated       -- an operator node takes the type of the enclosing declaration / assignment / return: the assignment check is bypassed
   | indexNonIndexable               -- index expression on a type that cannot be indexed: accepted or Go panic
   | constantIndexUnchecked          -- negative (or out-of-range for a zero-length array) constant index accepted
-  | constantCondition               -- F11: constant non-boolean if/for condition: Go panic out of the compiler
   | floatDivisionByConstantZero     -- x / 0 with floating-point or complex x rejected (Go accepts)
   | typedConstantOperand            -- a typed constant zero divisor / negative shift count / negative index is not seen
   | opAssignConstantZeroDivisor     -- `x /= 0`, `x %= 0` accepted
@@ -56,7 +55,6 @@ def Lax.name : Lax → String
   | .destinationTypePropagated => "destination-type-propagated"
   | .indexNonIndexable => "index-non-indexable"
   | .constantIndexUnchecked => "constant-index-unchecked"
-  | .constantCondition => "constant-condition"
   | .floatDivisionByConstantZero => "float-division-by-constant-zero"
   | .typedConstantOperand => "typed-constant-operand"
   | .opAssignConstantZeroDivisor => "op-assign-constant-zero-divisor"
@@ -214,10 +212,12 @@ def classifyIndex (a i : Opnd) : Lax :=
   | .nil => .nilAsValue
   | _ => .indexNonIndexable
 
+/-- since the repair of F11 (the if/for cases leave after recording the error) the only condition on which the
+    two sides differ is `nil` (`cond_correct`); any other difference belongs to no listed class -/
 def classifyCond (c : Opnd) : Lax :=
   match c.sh with
   | .nil => .nilAsValue
-  | _ => .constantCondition
+  | _ => .other
 
 def classifyConv (t : Ty) (x : Opnd) : Lax :=
   match x.sh with
